@@ -85,10 +85,37 @@ type loopInfo struct {
 	spec    *LoopSpec
 	decSnap *Term
 	frameKeys []string
+	autoTerm bool
+	autoIter *ssa.Alloc
+	cellWrites map[string][]ssa.Value
 	pos     token.Pos
 }
 
+// frame holds the per-function CFG analysis. The function under contract has the top frame;
+// repo functions called without a contract are inlined, each in its own frame.
+type frame struct {
+	fn          *ssa.Function
+	loops       map[*ssa.BasicBlock]*loopInfo
+	callOrd     map[ssa.Instruction]int
+	callKeyOf   map[ssa.Instruction]string
+	retOrd      map[*ssa.BasicBlock]int
+	deferSites  []*ssa.Defer
+	deferInLoop map[*ssa.Defer]bool
+	c           *Contract
+	prefix      string // prefix of state keys of locals / defers and of obligation names
+	inlined     bool
+	rets        []retState
+}
+
+type retState struct {
+	s   *State
+	res []Term
+}
+
 type FuncVC struct {
+	cur    *frame
+	frames map[*ssa.Function]*frame
+	stack  []*ssa.Function
 	eng  *Engine
 	fn   *ssa.Function
 	key  string
@@ -112,12 +139,6 @@ type FuncVC struct {
 	params   map[string]Term
 	paramList []Term
 
-	loops     map[*ssa.BasicBlock]*loopInfo
-	callOrd   map[ssa.Instruction]int
-	callKeyOf map[ssa.Instruction]string
-	retOrd    map[*ssa.BasicBlock]int
-	deferSites []*ssa.Defer
-	deferInLoop map[*ssa.Defer]bool
 
 	outside   []string // reasons this function is outside the subset
 	uncontracted map[string]bool
@@ -130,7 +151,7 @@ type FuncVC struct {
 	counters map[string]int
 	dry bool
 	abort bool
-	edgePC map[edge]Term
+	edgePC map[edgeF]Term
 	sitesUsed map[string]bool
 	frameReported map[string]bool
 	specErrors []string
@@ -141,6 +162,14 @@ type FuncVC struct {
 	usedContracts map[string]bool
 	deferKeys []Term
 	allocs []*ssa.Alloc
+	subSeen map[string]bool
+	inlinedFns map[string]bool
+	inlineOuter []savedBlockLoops
+}
+
+type savedBlockLoops struct {
+	fr *frame
+	b  *ssa.BasicBlock
 }
 
 type callbacksSite struct {
@@ -189,6 +218,9 @@ func (vc *FuncVC) posStr(p token.Pos) string {
 
 // oblige records a proof obligation: under pc, f must hold. Afterwards f is assumed.
 func (vc *FuncVC) oblige(kind, name, clause string, pos token.Pos, pc, f Term) *Obligation {
+	if vc.cur != nil && vc.cur.prefix != "" {
+		name = vc.cur.prefix + name
+	}
 	ob := &Obligation{
 		ID: vc.prop + "/" + vc.key + "/" + name, Prop: vc.prop, Func: vc.key, Kind: kind,
 		Clause: clause, Pos: vc.posStr(pos), Expect: "unsat", pc: pc, f: f,
@@ -471,12 +503,15 @@ func (vc *FuncVC) subRef(ref Term, structT types.Type, field int) Term {
 	info := vc.ss.structInfoOf(structT)
 	st := structT.Underlying().(*types.Struct)
 	fn := "sub!" + strings.TrimPrefix(info.name, "St_") + "!" + smtIdent(st.Field(field).Name())
-	if vc.funDecls == nil || vc.funDecls[fn] == "" {
-		vc.eng.needFun(vc, fn, []string{"Int"}, "Int")
-		vc.emit("(assert (forall ((r!q Int)) (! (and (> (%s r!q) 0) (= (un%s (%s r!q)) r!q)) :pattern ((%s r!q)))))", fn, fn, fn, fn)
-		vc.eng.needFun(vc, "un"+fn, []string{"Int"}, "Int")
+	vc.eng.needFun(vc, fn, []string{"Int"}, "Int")
+	vc.eng.needFun(vc, "un"+fn, []string{"Int"}, "Int")
+	t := app("Int", fn, ref)
+	if !vc.subSeen[t.S] {
+		// injectivity and non-nil-ness, instantiated at this term (quantifier-free)
+		vc.subSeen[t.S] = true
+		vc.emit("(assert (and (> %s 0) (= (un%s %s) %s)))", t.S, fn, t.S, ref.S)
 	}
-	return app("Int", fn, ref)
+	return t
 }
 
 func (vc *FuncVC) heapLoadField(s *State, ref Term, structT types.Type, field int) Term {
